@@ -146,6 +146,22 @@ impl Prop for C09 {
             for f in fs.iter() {
                 vectors.push(vec![f.clone(); n]);
             }
+            // inputs that make a state element exactly zero after the first round-constant addition (and hence after
+            // the first S-box layer): x_i = -c[i] of the reference constants, one position at a time and in pairs
+            {
+                let prm = crate::refmodel::poseidon::params(n + 1);
+                let zero_at = |i: usize| fneg(&prm.c[i + 1]);
+                for i in 0..n {
+                    let mut v = default.clone();
+                    v[i] = zero_at(i);
+                    vectors.push(v.clone());
+                    for j in (i + 1)..n {
+                        let mut w = v.clone();
+                        w[j] = zero_at(j);
+                        vectors.push(w);
+                    }
+                }
+            }
             let k = 2; // both tiers: every vector within two deviations, all arities
             let sizes = vec![fs.len() + 1; n];
             for dv in deviations(&sizes, k) {
